@@ -68,6 +68,13 @@ fn note_count(server: &Server, uri: &Url) -> usize {
 pub fn check_case(model: &mut Model, case: &Case, tag: &str, rep: Option<&mut Report>) -> Option<String> {
     let root = PathBuf::from(format!("/verif/harness/tmp/c14-{}-{}", std::process::id(), tag));
     let base = root.join(&case.base_name);
+    // one more note, in directories that spell the library's own path once more below it (`<base>/echo/<base>/deep.md`):
+    // a URI is cut at the library root once, at its start
+    let mut case = Case { base_name: case.base_name.clone(), files: case.files.clone() };
+    if !case.base_name.contains(' ') {
+        case.files.push(format!("echo/{}/deep.md", base.to_string_lossy().trim_start_matches('/')));
+    }
+    let case = &case;
     let _ = std::fs::remove_dir_all(&root);
     for (i, f) in case.files.iter().enumerate() {
         let p = base.join(f);
